@@ -253,6 +253,59 @@ theorem descChars_stop (c e inc : Nat) (h : ¬ (0 < inc ∧ inc ≤ c ∧ isScal
     descChars c e inc = [] := by
   rw [descChars, dif_neg h]
 
+theorem utf8Len_append (a b : Wire.Str) : utf8Len (a ++ b) = utf8Len a + utf8Len b := by
+  simp [utf8Len, List.map_append, List.sum_append]
+
+theorem utf8Len_cons (c : Char) (s : Wire.Str) : utf8Len (c :: s) = c.utf8Size + utf8Len s := by
+  simp [utf8Len]
+
+/-- the UTF-8 length of a prefix is a character boundary: splitting there gives the prefix back -/
+theorem splitAtByte_prefix (pre rest : Wire.Str) : splitAtByte (pre ++ rest) (utf8Len pre) = some (pre, rest) := by
+  induction pre with
+  | nil => cases rest <;> rfl
+  | cons c cs ih =>
+    have hpos := Char.utf8Size_pos c
+    rw [utf8Len_cons]
+    obtain ⟨k, hk⟩ : ∃ k, c.utf8Size + utf8Len cs = k + 1 := ⟨c.utf8Size + utf8Len cs - 1, by omega⟩
+    rw [hk]
+    show splitAtByte (c :: (cs ++ rest)) (k + 1) = _
+    rw [splitAtByte, if_pos (by omega)]
+    have : k + 1 - c.utf8Size = utf8Len cs := by omega
+    rw [this, ih]
+    rfl
+
+/-- replacing the one-byte `&` that follows a prefix succeeds -/
+theorem replaceRange1_amp (pre post r : Wire.Str) :
+    replaceRange1 (pre ++ '&' :: post) (utf8Len pre) r = .ok (pre ++ r ++ post) := by
+  unfold replaceRange1
+  rw [splitAtByte_prefix]
+  simp only
+  rw [if_pos (by decide)]
+
+/-- the index discipline: applied last-first, every offset taken from the original pattern still
+addresses its own `&` in the partly rewritten copy (everything before it is untouched) -/
+theorem applyRev_ampOffsets (r : Wire.Str) : ∀ (rest pre : Wire.Str) (esc : Bool),
+    applyRev (ampOffsets rest (utf8Len pre) esc) (pre ++ rest) r = .ok (pre ++ substAmp rest esc r) := by
+  intro rest
+  induction rest with
+  | nil => intro pre esc; rfl
+  | cons c cs ih =>
+    intro pre esc
+    have hstep := ih (pre ++ [c]) (!esc && c == '\\')
+    rw [utf8Len_append] at hstep
+    have hone : utf8Len [c] = c.utf8Size := by simp [utf8Len]
+    rw [hone, List.append_assoc, List.singleton_append] at hstep
+    unfold ampOffsets substAmp
+    simp only
+    by_cases hamp : (!esc && c == '&') = true
+    · rw [if_pos hamp, if_pos hamp]
+      have hc : c = '&' := by simp at hamp; exact hamp.2
+      subst hc
+      rw [applyRev, hstep]
+      simp only
+      rw [List.append_assoc, List.singleton_append, replaceRange1_amp, List.append_assoc]
+    · rw [if_neg hamp, if_neg hamp, hstep, List.append_assoc, List.singleton_append]
+
 theorem decr_ok (fl : Flow) : ∃ fl', decr fl = .ok fl' := by
   cases fl with
   | normal => exact ⟨_, rfl⟩
